@@ -6,6 +6,8 @@
 //!   simnode info
 
 #![allow(dead_code)]
+#[cfg(any(feature = "clilib-ring", feature = "clilib-aws"))]
+mod calib;
 mod dn_sim;
 use simcore::engine;
 mod keys;
@@ -106,6 +108,8 @@ fn main() {
         #[cfg(feature = "crypto")]
         "xchg-consume" => replica::xchg_consume(&arg(&args, "--in").expect("--in")),
         "purity-hist" => dispatch::<purity::PurityHist>(&args[2], &args[3..]),
+        #[cfg(any(feature = "clilib-ring", feature = "clilib-aws"))]
+        "purity-lib" => dispatch::<calib::PurityLib>(&args[2], &args[3..]),
         #[cfg(feature = "shuttle")]
         "purity-shuttle" => dispatch::<purity::PurityShuttle>(&args[2], &args[3..]),
         other => {
